@@ -97,10 +97,10 @@ class Taint:
         if isinstance(e, ast.Attribute):
             if e.attr == "domain":
                 return True
+            if e.attr == "_domain_":
+                return True       # the memoising wrapper of a variable's domain, whoever holds the variable
             if isinstance(e.value, ast.Name) and e.value.id == "self":
                 if e.attr == "iterable" and self.cls is not None and self.cls.name == "HashedIterable":
-                    return True
-                if e.attr == "_domain_":
                     return True
             return False
         if isinstance(e, ast.Subscript):
@@ -113,8 +113,9 @@ class Taint:
             d = dotted(e.func) or ""
             if isinstance(e.func, ast.Attribute) and e.func.attr in ("values", "items") and not e.args:
                 return self._is_domain_expr(e.func.value)      # the streams held by a tainted container
-            if d.split(".")[-1] in ("map", "filter", "iter", "enumerate", "zip", "chain") and e.args:
-                return any(self._is_domain_expr(a) for a in e.args[1:] + ([e.args[0]] if d.split(".")[-1] in ("iter", "enumerate", "zip", "chain") else []))
+            if d.split(".")[-1] in ("map", "filter", "iter", "enumerate", "zip", "chain", "islice", "takewhile", "dropwhile") and e.args:
+                first_is_stream = d.split(".")[-1] in ("iter", "enumerate", "zip", "chain", "islice")
+                return any(self._is_domain_expr(a) for a in e.args[1:] + ([e.args[0]] if first_is_stream else []))
         if isinstance(e, ast.GeneratorExp):
             return any(self._is_domain_expr(g.iter) for g in e.generators)
         if isinstance(e, (ast.ListComp, ast.DictComp, ast.SetComp)):
